@@ -338,7 +338,7 @@ func mCellNamed(name string) VMatch {
 			return false
 		}
 		al := resolveCell(u.X)
-		return al != nil && al.Comment == name
+		return al != nil && cellRefName(al) == name
 	}
 }
 
